@@ -40,6 +40,16 @@ enum Op {
     RustEqAB,    // Rust: a == b (List::eq)
     RustEqBA,    // Rust: b == a
     ConcatAA,    // a.concat(&a)
+    // script-side operations: the type-erased entry points of the runtime
+    // (`contains_owned`, `index_owned`, `push`, `swap`, `concat`, `len`), which
+    // the typed Rust API does not go through
+    ScriptContainsA2, // script: l.contains(2)
+    ScriptIndexA2,    // script: l.index(2)
+    ScriptPushA,      // script: l.push(9) (relocates)
+    ScriptSwapA01,    // script: l.swap(0, 1)
+    ScriptConcatAB,   // script: x + y
+    ScriptLenA,       // script: l.len()
+    IndexA2,          // Rust: a.index(&2)
 }
 
 const MENU_QUICK: [Op; 10] = [
@@ -74,9 +84,45 @@ const MENU_FULL: [Op; 17] = [
     Op::RustEqBA,
 ];
 
+/// The script-side family: every type-erased entry point against the writers
+/// (Rust and script side) and against each other.
+const MENU_SCRIPT: [Op; 10] = [
+    Op::ScriptContainsA2,
+    Op::ScriptIndexA2,
+    Op::ScriptPushA,
+    Op::ScriptSwapA01,
+    Op::ScriptConcatAB,
+    Op::ScriptLenA,
+    Op::IndexA2,
+    Op::PushA,
+    Op::ScriptGetA0,
+    Op::PushB,
+];
+
+/// quick: the type-erased entry points that scan or write, against the relocating pushes
+const MENU_SCRIPT_QUICK: [Op; 6] = [
+    Op::ScriptContainsA2,
+    Op::ScriptIndexA2,
+    Op::ScriptPushA,
+    Op::ScriptSwapA01,
+    Op::ScriptConcatAB,
+    Op::PushA,
+];
+
 impl Op {
     fn uses_script(self) -> bool {
-        matches!(self, Op::ScriptGetA0 | Op::ScriptEqAB | Op::ScriptEqBA)
+        matches!(
+            self,
+            Op::ScriptGetA0
+                | Op::ScriptEqAB
+                | Op::ScriptEqBA
+                | Op::ScriptContainsA2
+                | Op::ScriptIndexA2
+                | Op::ScriptPushA
+                | Op::ScriptSwapA01
+                | Op::ScriptConcatAB
+                | Op::ScriptLenA
+        )
     }
     fn name(self) -> &'static str {
         match self {
@@ -97,6 +143,13 @@ impl Op {
             Op::RustEqAB => "a == b",
             Op::RustEqBA => "b == a",
             Op::ConcatAA => "a.concat(a)",
+            Op::ScriptContainsA2 => "script{a.contains(2)}",
+            Op::ScriptIndexA2 => "script{a.index(2)}",
+            Op::ScriptPushA => "script{a.push(9)}",
+            Op::ScriptSwapA01 => "script{a.swap(0,1)}",
+            Op::ScriptConcatAB => "script{a + b}",
+            Op::ScriptLenA => "script{a.len()}",
+            Op::IndexA2 => "a.index(2)",
         }
     }
 }
@@ -113,6 +166,7 @@ enum Res {
     Bool(bool),
     Len(usize),
     Vec(Vec<u64>),
+    Idx(Option<u64>),
 }
 
 #[derive(Clone)]
@@ -139,7 +193,7 @@ fn model_apply(m: &mut Model, op: Op) -> Res {
     match op {
         Op::GetA0 | Op::ScriptGetA0 => Res::Opt(m.a.first().copied()),
         Op::GetA3 => Res::Opt(m.a.get(3).copied()),
-        Op::PushA => {
+        Op::PushA | Op::ScriptPushA => {
             m.a.push(9);
             Res::Unit
         }
@@ -147,7 +201,7 @@ fn model_apply(m: &mut Model, op: Op) -> Res {
             m.b.push(7);
             Res::Unit
         }
-        Op::ConcatAB => {
+        Op::ConcatAB | Op::ScriptConcatAB => {
             let mut v = m.a.clone();
             v.extend(&m.b);
             Res::Vec(v)
@@ -162,8 +216,9 @@ fn model_apply(m: &mut Model, op: Op) -> Res {
             v.extend(&m.a);
             Res::Vec(v)
         }
-        Op::ContainsA2 => Res::Bool(m.a.contains(&2)),
-        Op::SwapA01 => {
+        Op::ContainsA2 | Op::ScriptContainsA2 => Res::Bool(m.a.contains(&2)),
+        Op::IndexA2 | Op::ScriptIndexA2 => Res::Idx(m.a.iter().position(|x| *x == 2).map(|i| i as u64)),
+        Op::SwapA01 | Op::ScriptSwapA01 => {
             if m.a.len() > 1 {
                 m.a.swap(0, 1);
             }
@@ -171,7 +226,7 @@ fn model_apply(m: &mut Model, op: Op) -> Res {
         }
         Op::CloneDropA => Res::Unit,
         Op::ScriptEqAB | Op::ScriptEqBA | Op::RustEqAB | Op::RustEqBA => Res::Bool(m.a == m.b),
-        Op::LenA => Res::Len(m.a.len()),
+        Op::LenA | Op::ScriptLenA => Res::Len(m.a.len()),
         Op::ToVecA => Res::Vec(m.a.clone()),
     }
 }
@@ -183,11 +238,23 @@ type EqFn = TypedFunc<NoCtx, fn(List<u64>, List<u64>) -> bool>;
 struct Scripts {
     get: GetFn,
     eq: EqFn,
+    contains: TypedFunc<NoCtx, fn(List<u64>, u64) -> bool>,
+    index: TypedFunc<NoCtx, fn(List<u64>, u64) -> Option<u64>>,
+    push: TypedFunc<NoCtx, fn(List<u64>, u64)>,
+    swap: TypedFunc<NoCtx, fn(List<u64>, u64, u64)>,
+    concat: TypedFunc<NoCtx, fn(List<u64>, List<u64>) -> List<u64>>,
+    len: TypedFunc<NoCtx, fn(List<u64>) -> u64>,
 }
 
 const SCRIPT: &str = "\
 fn g(l: List[u64], i: u64) -> u64? { l.get(i) }
 fn q(x: List[u64], y: List[u64]) -> bool { x == y }
+fn c(l: List[u64], v: u64) -> bool { l.contains(v) }
+fn ix(l: List[u64], v: u64) -> u64? { l.index(v) }
+fn p(l: List[u64], v: u64) { l.push(v); }
+fn s(l: List[u64], i: u64, j: u64) { l.swap(i, j); }
+fn cc(x: List[u64], y: List[u64]) -> List[u64] { x + y }
+fn n(l: List[u64]) -> u64 { l.len() }
 ";
 
 fn real_apply(op: Op, a: &List<u64>, b: &List<u64>, s: &Scripts) -> Res {
@@ -221,6 +288,19 @@ fn real_apply(op: Op, a: &List<u64>, b: &List<u64>, s: &Scripts) -> Res {
         Op::RustEqBA => Res::Bool(b == a),
         Op::LenA => Res::Len(a.len()),
         Op::ToVecA => Res::Vec(a.to_vec()),
+        Op::ScriptContainsA2 => Res::Bool(s.contains.call(a.clone(), 2)),
+        Op::ScriptIndexA2 => Res::Idx(s.index.call(a.clone(), 2)),
+        Op::ScriptPushA => {
+            s.push.call(a.clone(), 9);
+            Res::Unit
+        }
+        Op::ScriptSwapA01 => {
+            s.swap.call(a.clone(), 0, 1);
+            Res::Unit
+        }
+        Op::ScriptConcatAB => Res::Pending(ListBox(s.concat.call(a.clone(), b.clone()))),
+        Op::ScriptLenA => Res::Len(s.len.call(a.clone()) as usize),
+        Op::IndexA2 => Res::Idx(a.index(&2).map(|i| i as u64)),
     }
 }
 
@@ -274,15 +354,22 @@ fn linearizable(calls: &[Call], init: &Model, final_a: &[u64], final_b: &[u64]) 
 struct Shape {
     threads: usize,
     ops: usize,
+    /// the script-side family (MENU_SCRIPT) instead of the tier's main menu
+    script_family: bool,
 }
 
 fn shapes(tier: Tier) -> Vec<Shape> {
     match tier {
-        Tier::Quick => vec![Shape { threads: 2, ops: 2 }],
+        Tier::Quick => vec![
+            Shape { threads: 2, ops: 2, script_family: false },
+            Shape { threads: 2, ops: 2, script_family: true },
+        ],
         Tier::Thorough => vec![
-            Shape { threads: 2, ops: 2 },
-            Shape { threads: 2, ops: 3 },
-            Shape { threads: 3, ops: 2 },
+            Shape { threads: 2, ops: 2, script_family: false },
+            Shape { threads: 2, ops: 3, script_family: false },
+            Shape { threads: 3, ops: 2, script_family: false },
+            Shape { threads: 2, ops: 2, script_family: true },
+            Shape { threads: 3, ops: 1, script_family: true },
         ],
     }
 }
@@ -291,6 +378,12 @@ fn shapes(tier: Tier) -> Vec<Shape> {
 const MENU_SMALL: [Op; 5] = [Op::GetA0, Op::PushA, Op::PushB, Op::ConcatAB, Op::ScriptEqBA];
 
 fn menu(tier: Tier, shape: &Shape) -> &'static [Op] {
+    if shape.script_family {
+        return match tier {
+            Tier::Quick => &MENU_SCRIPT_QUICK,
+            Tier::Thorough => &MENU_SCRIPT,
+        };
+    }
     match tier {
         Tier::Quick => &MENU_QUICK,
         Tier::Thorough => {
@@ -304,6 +397,9 @@ fn menu(tier: Tier, shape: &Shape) -> &'static [Op] {
 }
 
 fn bound(tier: Tier, shape: &Shape) -> usize {
+    if shape.script_family {
+        return tier.pick(2, 3);
+    }
     match tier {
         Tier::Quick => 2,
         Tier::Thorough => {
@@ -736,6 +832,12 @@ impl Check for C16 {
         let scripts = Scripts {
             get: pkg.get_function("g").expect("g"),
             eq: pkg.get_function("q").expect("q"),
+            contains: pkg.get_function("c").expect("c"),
+            index: pkg.get_function("ix").expect("ix"),
+            push: pkg.get_function("p").expect("p"),
+            swap: pkg.get_function("s").expect("s"),
+            concat: pkg.get_function("cc").expect("cc"),
+            len: pkg.get_function("n").expect("n"),
         };
         let lo = unit * PER_UNIT;
         let hi = (lo + PER_UNIT).min(progs.len());
@@ -757,9 +859,9 @@ impl Check for C16 {
             // programs that lock both. Programs that touch `b` also run from
             // the second initial configuration (empty `b`).
             let touches_b = p.iter().flatten().any(|o| {
-                matches!(o, Op::ConcatAB | Op::ConcatBA | Op::PushB | Op::ScriptEqAB | Op::ScriptEqBA | Op::RustEqAB | Op::RustEqBA)
+                matches!(o, Op::ConcatAB | Op::ConcatBA | Op::PushB | Op::ScriptEqAB | Op::ScriptEqBA | Op::RustEqAB | Op::RustEqBA | Op::ScriptConcatAB)
             });
-            let locks_both = has_eq || p.iter().flatten().any(|o| matches!(o, Op::ConcatAB | Op::ConcatBA));
+            let locks_both = has_eq || p.iter().flatten().any(|o| matches!(o, Op::ConcatAB | Op::ConcatBA | Op::ScriptConcatAB));
             let mut inits = vec![Init { a_low: true, config: 0 }];
             if locks_both {
                 inits.push(Init { a_low: false, config: 0 });
@@ -872,7 +974,7 @@ impl Check for C16 {
                 "sequentially consistent memory (one thread runs at a time); Arc reference counting is std's and trusted".into(),
             ],
             bounds: json!({
-                "shapes": sh.iter().map(|s| json!({"threads": s.threads, "ops_per_thread": s.ops,
+                "shapes": sh.iter().map(|s| json!({"threads": s.threads, "ops_per_thread": s.ops, "family": if s.script_family { "script-side entry points" } else { "main" },
                     "menu": menu(cfg.tier, s).iter().map(|o| o.name()).collect::<Vec<_>>(),
                     "preemption_bound": if bound(cfg.tier, s) == usize::MAX { json!("unbounded") } else { json!(bound(cfg.tier, s)) }})).collect::<Vec<_>>(),
                 "initial": [{"a": [1,2,3,4], "a_capacity": 4, "b": [5]}, {"a": [7], "b": []}],
